@@ -4,17 +4,40 @@ pub use methods::dispatch as sort;
 
 #[dispatch]
 mod methods {
-    use crate::CelValue;
+    use crate::{CelResult, CelValue};
 
-    fn sort(mut this: Vec<CelValue>) -> Vec<CelValue> {
-        this.sort_by(|a, b| {
-            a.clone()
-                .ord(b.clone())
-                .unwrap_or(Some(std::cmp::Ordering::Less))
-                .unwrap_or(std::cmp::Ordering::Less)
-        });
-        this
+    fn sort(this: Vec<CelValue>) -> CelResult<Vec<CelValue>> {
+        internal::merge_sort(this)
     }
 
-    mod internal {}
+    mod internal {
+        use crate::{CelError, CelResult, CelValue};
+        use std::cmp::Ordering;
+
+        // A stable merge sort with a fallible comparison: values that cannot be
+        // ordered against each other (different types, NaN) are an error instead
+        // of an inconsistent comparator handed to the standard library.
+        pub fn merge_sort(mut left: Vec<CelValue>) -> CelResult<Vec<CelValue>> {
+            if left.len() <= 1 {
+                return Ok(left);
+            }
+
+            let right = left.split_off(left.len() / 2);
+            let mut left = merge_sort(left)?.into_iter().peekable();
+            let mut right = merge_sort(right)?.into_iter().peekable();
+            let mut merged = Vec::new();
+
+            while let (Some(l), Some(r)) = (left.peek(), right.peek()) {
+                match l.clone().ord(r.clone())? {
+                    Some(Ordering::Greater) => merged.extend(right.next()),
+                    Some(_) => merged.extend(left.next()),
+                    None => return Err(CelError::value("sort() values are not comparable")),
+                }
+            }
+
+            merged.extend(left);
+            merged.extend(right);
+            Ok(merged)
+        }
+    }
 }
